@@ -122,6 +122,8 @@ func TestVerifPolicy(t *testing.T) {
 		th := []int{28, 34, 66, 80, 90, 97}
 		if burst {
 			th = []int{42, 44, 78, 92, 97, 99}
+		} else if heavy {
+			th = []int{26, 30, 60, 74, 82, 97} // more climbing: the quota then fits some heads and not others
 		}
 		cur := make([]int, nkeys+1)
 		var pend []polTask
@@ -437,6 +439,9 @@ func TestVerifPolicy(t *testing.T) {
 					if rng.Intn(4) == 0 {
 						a = rng.Intn(2*int(p.maximum)+1) - int(p.maximum)
 					}
+					if heavy && rng.Intn(2) == 0 {
+						a = 1 + rng.Intn(int(p.maximum)/3+1) // the window grows: entries move out of probation / protected
+					}
 					p.hitsInSample, p.missesInSample = 0, 0
 					p.adjustment = int64(a)
 					p.climb()
@@ -447,6 +452,14 @@ func TestVerifPolicy(t *testing.T) {
 					emit(polRec{Op: "setmax", M: int(m)}) //nolint:gosec // small
 				}
 			}
+			// epilogue: every recorded task is applied, then the maximum is lowered to 1 - every entry must still be reachable as
+			// an eviction victim, so the pass that follows brings the total within the new maximum
+			for len(pend) > 0 {
+				doApply(0)
+			}
+			p.setMaximumSize(1)
+			emit(polRec{Op: "setmax", M: 1})
+			doEvict(1, 0, 0)
 		}
 		func() {
 			// a panic of the code under test ends the run; it is an observation, the records before it are judged
